@@ -69,6 +69,38 @@ def miri_lane(scale="1"):
     return {"name": "miri", "tiers": ("thorough",), "run": run}
 
 
+def valgrind_lane():
+    """Run the (tiny) lane under valgrind memcheck: the OpenSSL FFI path is the only native code in the
+    build and Miri cannot cross it. Only memcheck's own error count is a verdict here; the lane's
+    behavioural verdicts under a 25x slowdown are ignored (timeouts would be meaningless)."""
+    def run(c):
+        import os, re, subprocess
+        binpath = os.path.join(c["target"], "verif", "vcheck")
+        out = os.path.join(c["evid"], ".tmp", "%s.valgrind.json" % c["pid"])
+        log = os.path.join(c["evid"], ".tmp", "%s.valgrind.log" % c["pid"])
+        cmd = ["valgrind", "--tool=memcheck", "--leak-check=no", "--error-exitcode=0", "--log-file=" + log,
+               binpath, c["pid"], "--tier", "quick", "--seed", str(c["seed"]), "--tiny", "--threads", "2", "--out", out]
+        try:
+            subprocess.run(cmd, cwd=c["root"], env=c["env"], stdout=subprocess.PIPE, stderr=subprocess.STDOUT, text=True, timeout=3000)
+        except subprocess.TimeoutExpired:
+            return None, "valgrind wall-clock watchdog"
+        if not os.path.exists(log):
+            return None, "no valgrind log"
+        text = open(log).read()
+        m = re.search(r"ERROR SUMMARY: (\d+) errors from (\d+) contexts", text)
+        if not m:
+            return None, "valgrind log without an error summary: " + text[-400:]
+        nerr, nctx = int(m.group(1)), int(m.group(2))
+        lane = {"lane": "valgrind-memcheck", "evaluations": 1, "distinct_nontrivial": 0, "samples": [{"lane": "valgrind-memcheck", "error_summary": m.group(0)}],
+                "counters": {"memcheck_errors": nerr, "memcheck_contexts": nctx}, "violations": [], "inconclusive": 0, "inconclusive_notes": [],
+                "harness_errors": [], "exhaustive": []}
+        if nerr > 0:
+            first = text[text.find("=="):][:3000]
+            lane["violations"].append({"signature": "memcheck:error-in-native-tls-path", "detail": first, "replay": {"lane": "valgrind"}, "count": nerr})
+        return {"lanes": [lane]}, None
+    return {"name": "valgrind-memcheck", "tiers": ("thorough",), "run": run}
+
+
 prop("C07",
      title="BER encoding and parsing are mutual inverses and encoding is canonical",
      rule="random tag trees (4 classes x tags 0..30 x P/C, depth<=7, payload lengths biased to the 1/2/3/4-octet length boundaries, incl. 64K and 16M payloads) encoded by lber and compared byte-for-byte with the harness' minimal definite-length encoder, then parsed back with a random trailer; all integers in -70000..=70000, every +-2^k+-{0,1,2}, and random 64-bit values of every bit width compared with the reference shortest two's-complement content; reference encodings with random non-minimal length octets parsed by lber and compared with the reference decoder. distinct = distinct encoded byte strings / integer values",
@@ -206,10 +238,10 @@ prop("C19",
      note="pure functions plus hook H4 for the envelope lane; PasswordModify with no fields may omit the request value or send an empty SEQUENCE (both accepted)")
 
 
-prop("C18",
+prop("C18", timeout_quick=1500,
      title="Connection setup honours the URL and fails cleanly on bad input",
      rule="real loopback sockets: TCP listeners on 127.0.0.1/[::1] ports 389 and 636 (the sandbox runs as root), ephemeral ports, a listener that reads and never answers, a port with no listener, and Unix socket listeners at generated paths (plain; with space, '%', non-ASCII and ':' needing percent-encoding). An enumerated table of (URL, StartTLS, timeout, pre-opened TCP/Unix/Invalid stream) cases with the expected outcome derived from the property: explicit host/port, default ports 389/636, missing or empty host = localhost (ldap:///, ldap://, ldap:), IPv6 literal, ldapi percent-decoding, empty and port-bearing ldapi paths, unknown schemes, unparsable URLs, refused port, pre-opened stream used iff its type matches the scheme (and then no new connection is made), connection timeout bounding StartTLS / TLS handshake against a silent server; plus 300 seeded fuzzed scheme/separator/host/port/path/settings combinations for which only 'no panic, no hang' is required. Every case runs through LdapConnAsync::with_settings and LdapConn::with_settings; the oracle compares Ok/Err/panic and WHICH listener received a connection. distinct = distinct (URL, settings, API) cases",
-     claim="held on the enumerated matrix and the fuzzed combinations of this run; real time is used only for the generous bound (10 s for a 300 ms connection timeout) and for hang detection (30 s), a port that cannot be bound makes its cases inconclusive",
+     claim="held on the enumerated matrix and the fuzzed combinations of this run; real time is used only for the generous bound (6 s for a 300 ms connection timeout) and for hang detection (8 s per setup call), a port that cannot be bound makes its cases inconclusive",
      design="3/C18", technique="listener-attribution monitor on real loopback/Unix sockets over an enumerated URL x settings matrix plus URL fuzzing with panic capture",
      note="needs to bind 127.0.0.1:389/636 (root); runs are serialised with a lock file; scratch sockets live under /tmp for the duration of the run only")
 
@@ -220,6 +252,15 @@ prop("C14",
      claim="held on every generated script of this run (per-operation step counts and requests compared in the evidence)",
      design="3/C14", technique="differential monitor: one script, two API front-ends, same scripted server; wire transcript and return values compared",
      note="real sockets and real time (LdapConn owns a private runtime that cannot be paused): timeouts are compared by outcome class only")
+
+
+prop("C17",
+     title="Requested TLS is never silently downgraded",
+     rule="real loopback TCP with a harness server = raw cleartext tap + native-tls acceptor using certificates minted by certs/gen.sh (trusted for localhost/127.0.0.1 through SSL_CERT_FILE, wrong-name, untrusted CA, self-signed). Full matrix {ldap+StartTLS, ldaps, ldaps with the StartTLS flag} x {no_tls_verify on/off} x {host name, IP literal} x server behaviours {TLS with each certificate, StartTLS refused with sampled non-zero codes, garbage answer, well-formed non-extended answer, close, forged cleartext LDAP responses (for the IDs the client will use next, 1-64 copies) in the same segment as the StartTLS success, forged cleartext in a later segment}; after establishment two binds are issued which the server answers INSIDE TLS with rc 49. Oracle: every cleartext byte the server received is exactly one StartTLS ExtendedRequest (ldaps: first bytes are a TLS handshake record) and no LDAP message follows it in the clear; establishment returns Err when StartTLS is not success, the answer is garbage/closed, or the certificate must not verify (unless verification is disabled); a returned handle implies a completed handshake; no operation result carries the forged cleartext token or anything not sent inside TLS. thorough adds a valgrind memcheck pass over the OpenSSL FFI path. distinct = distinct matrix cells (x repetitions with different refusal codes / injection sizes)",
+     claim="held on every cell of the matrix in this run; establishment hangs bounded by the 6 s connection timeout are inconclusive, not violations",
+     design="3/C17", technique="wire-tap monitor on real loopback TLS: cleartext byte oracle + establishment-outcome table + forged-response tokens; valgrind memcheck for the native TLS path",
+     note="needs loopback TCP and the openssl CLI at setup time; trust is injected with SSL_CERT_FILE (honoured by the default native-tls connector); tls-rustls feature code is not built in this configuration and is out of reach")
+EXTRA_LANES["C17"] = [valgrind_lane()]
 
 
 # ---- properties not (yet) claimed ----
